@@ -179,6 +179,10 @@ func (k Keeper) AddDeposit(ctx sdk.Context, receiverAddr, senderAddr sdk.AccAddr
 			// refresh stream data, since deposits and total streamed may have changed
 			// after claim stream call
 			stream, _ = k.GetStream(ctx, receiverAddr, senderAddr)
+		} else {
+			// nothing left to settle: the new schedule starts now, so the time the stream
+			// spent without funds must not be counted as streamed time by the next claim
+			stream.LastOutflowTime = nowTime
 		}
 
 		// stream expired or new. Calculate from now
